@@ -30,6 +30,36 @@ extern photon_verif_hook_t photon_verif_hook;
                (uint64_t)(c));                                            \
     } while (0)
 
+// A lock-free atomic operation whose result is reported by an event is
+// bracketed, so that (operation, position of its event in the trace) is one
+// atomic step for the trace sink: photon_verif_lock(1) ... photon_verif_lock(0).
+// The sink holds a global spinlock in between; nothing that can block may be
+// placed inside a bracket.
+extern "C" {
+typedef void (*photon_verif_lock_t)(int on);
+extern photon_verif_lock_t photon_verif_lock;
+}
+#define VT_ATOMIC_BEGIN()                                                 \
+    do {                                                                  \
+        photon_verif_lock_t l_ = photon_verif_lock;                       \
+        if (__builtin_expect(!!l_, 0)) l_(1);                             \
+    } while (0)
+#define VT_ATOMIC_END()                                                   \
+    do {                                                                  \
+        photon_verif_lock_t l_ = photon_verif_lock;                       \
+        if (__builtin_expect(!!l_, 0)) l_(0);                             \
+    } while (0)
+
+// An event in front of a statement, for places where a separate statement
+// cannot be added without changing the control structure:
+//     else
+//         VT_PREFIX(id, obj, a, b, c)
+//         while (...) ...
+#define VT_PREFIX(id, obj, a, b, c)                                       \
+    if (__builtin_expect(!!photon_verif_hook, 0) &&                       \
+        (photon_verif_hook((id), (const void*)(obj), (uint64_t)(a),       \
+                           (uint64_t)(b), (uint64_t)(c)), false)) {} else
+
 // Event kinds. Numbers are stable; harnesses map them to names.
 enum {
     VT_SLEEP = 1,        // obj=thread a=waitq b=expire c=now   (prepare_usleep, under locks)
@@ -50,7 +80,9 @@ enum {
     VT_SEM_SUB = 22,     // obj=sem a=count wanted b=ok c=count after
     VT_SEM_ADD = 23,     // obj=sem a=added b=count after
     VT_SEM_RESUME = 24,  // obj=sem a=thread b=count left
-    VT_RW_STATE = 25,    // obj=rwlock a=state after b=mode
+    VT_RW_STATE = 25,    // obj=rwlock a=state after b=mode(0 = unlock) c=thread
+    VT_RW_WAKE_READERS = 27, // obj=rwlock: unlock() is about to wake the run of readers at the queue head
+    VT_RW_WOKE_FIRST = 28,   // obj=rwlock a=thread woken first by unlock()
     VT_HEAP_OP = 26,     // obj=sleepq a=op(0 push,1 pop_front,2 pop) b=thread c=size after
     VT_RL_INSERT = 30,   // obj=rangelock a=offset b=length
     VT_RL_WAIT = 31,     // obj=rangelock a=offset b=length (of the entry waited on)
@@ -69,5 +101,8 @@ enum {
 #else  // !PHOTON_VERIF
 
 #define VT_EVT(id, obj, a, b, c) ((void)0)
+#define VT_ATOMIC_BEGIN() ((void)0)
+#define VT_ATOMIC_END() ((void)0)
+#define VT_PREFIX(id, obj, a, b, c)
 
 #endif
